@@ -944,6 +944,7 @@ def rule_in_sample(ctx, repo):
     if not isinstance(cut, Vec):
         return
     it2 = AInterp(repo, scenario={"lit_1.is_all_out_of_sample": True}, hooks=make_hooks(Rec()), no_inline=NO_INLINE + ("_check_y",))
+    it2.index_loops = True
     try:
         sself = construct(repo, it2, scls, {p: v for p, v in vals.items()})
     except AnalysisError as e:
@@ -973,6 +974,7 @@ def rule_in_sample(ctx, repo):
     else:
         k3, f3 = hit3
         it3 = AInterp(repo, scenario={"lit_1.is_all_out_of_sample": True}, hooks=make_hooks(Rec()), no_inline=NO_INLINE + ("_check_y",))
+        it3.index_loops = True
         s3 = construct(repo, it3, scls, {p_: v_ for p_, v_ in vals.items()})
         _, fin3 = it3.run_function(Frame(k3.module, f3, scls, k3), {"self": s3, "y": Arr("y", N, "index")}, State(facts=f.copy()))
         loc3 = ctx.loc(k3.module, f3)
@@ -1496,12 +1498,12 @@ def is_none_test(t, attr):
             and self_attr_of(t.left) == attr and isinstance(t.comparators[0], ast.Constant) and t.comparators[0].value is None)
 
 
-def check_keywords(ctx, tag, mod, call, params, what, fn=None):
+def check_keywords(ctx, tag, mod, call, params, what, fn=None, kws=None):
     """keyword k=self.a: a must be k (or its alias) and the value must be the option itself (unchanged)."""
-    for kw in call.keywords:
-        if kw.arg is None:
-            continue
-        val = astq.inline_locals(fn, kw.value) if fn is not None else kw.value
+    if kws is None:
+        kws = [(k.arg, astq.inline_locals(fn, k.value) if fn is not None else k.value) for k in call.keywords if k.arg]
+    for kwname, val in kws:
+        kw = ast.keyword(arg=kwname, value=val)
         a = self_attr_of(val)
         if a is None:
             opts = mentions_option(val, params)
@@ -1533,8 +1535,54 @@ def check_keywords(ctx, tag, mod, call, params, what, fn=None):
                   witness={"keyword": kw.arg, "attribute": a})
 
 
+class _Subst(ast.NodeTransformer):
+    def __init__(self, env):
+        self.env = env
+
+    def visit_Name(self, node):
+        if isinstance(node.ctx, ast.Load) and node.id in self.env:
+            import copy
+            return copy.deepcopy(self.env[node.id])
+        return node
+
+
+def subst_expr(expr, env):
+    import copy
+    return _Subst(env).visit(copy.deepcopy(expr)) if env else expr
+
+
+def forwarding_instances(repo, cls, fn, pred, env=None, nested_root=None, depth=3, seen=None):
+    """Calls satisfying ``pred`` in ``fn`` (nested defs included) and in the helper methods it calls through ``self``; the
+    parameters of a helper are replaced by the arguments of the call site, one instance per call site.
+    Yields (call, positional exprs, [(keyword, expr)], in_nested_def)."""
+    env = env or {}
+    seen = seen or set()
+    nested = set()
+    for sub_ in ast.walk(fn):
+        if isinstance(sub_, (ast.FunctionDef, ast.Lambda)) and sub_ is not fn:
+            nested |= {id(x) for x in ast.walk(sub_)}
+    out = []
+    for n in ast.walk(fn):
+        if not isinstance(n, ast.Call):
+            continue
+        in_nested = nested_root if nested_root is not None else (id(n) in nested)
+        if pred(n):
+            pos = [subst_expr(astq.inline_locals(fn, a), env) for a in n.args if not isinstance(a, ast.Starred)]
+            kws = [(k.arg, subst_expr(astq.inline_locals(fn, k.value), env)) for k in n.keywords if k.arg]
+            out.append((n, pos, kws, in_nested))
+        elif isinstance(n.func, ast.Attribute) and isinstance(n.func.value, ast.Name) and n.func.value.id == "self" and depth > 0:
+            hit = repo.lookup_method(cls, n.func.attr)
+            if hit and (id(hit[1]), id(n)) not in seen and hit[1] is not fn:
+                b_ = astq.bind_call(hit[1], n, skip_self=True)
+                if b_ is None:
+                    continue
+                env2 = {p_: subst_expr(astq.inline_locals(fn, e_), env) for p_, e_ in b_.items() if isinstance(e_, ast.AST)}
+                out += forwarding_instances(repo, cls, hit[1], pred, env2, in_nested, depth - 1, seen | {(id(hit[1]), id(n))})
+    return out
+
+
 def rule_forwarding(ctx, repo):
-    # ExponentialSmoothing
+    # ExponentialSmoothing, AutoETS
     for rel, cname, prefix, fit_kw in ((EXP, "ExponentialSmoothing", "statsmodels.tsa.holtwinters", ()),
                                        (ETS, "AutoETS", "statsmodels.tsa.exponential_smoothing.ets", ())):
         cls = repo.cls(rel + ":" + cname)
@@ -1545,22 +1593,30 @@ def rule_forwarding(ctx, repo):
         for p in params:
             ctx.check(p in reads, "R6", "%s:reads:%s" % (cname, p), "option `%s` is read when fitting" % p,
                       "constructor option `%s` is never read on the fit path (stored but without effect)" % p, ctx.loc(mod, fn))
-        calls = model_calls(repo, mod, fn, prefix)
+
+        def is_model(n):
+            sym = repo.resolve_expr(mod, n.func)
+            return sym is not None and sym.kind == "ext" and sym.dotted.startswith(prefix)
+
+        def is_fit(n):
+            f_ = n.func
+            return isinstance(f_, ast.Attribute) and f_.attr == "fit" and not (isinstance(f_.value, ast.Call) and dotted(f_.value.func) == "super") \
+                and dotted(f_.value) != "self"
+
+        calls = forwarding_instances(repo, cls, fn, is_model)
         if not calls:
             ctx.undecided("R6", cname + ":model", "no call of the wrapped statsmodels model found", ctx.loc(mod, fn))
             continue
         yparam = astq.param_names(fn, skip_self=True)[0]
-        nested = set()
-        for sub_ in ast.walk(fn):
-            if isinstance(sub_, (ast.FunctionDef, ast.Lambda)) and sub_ is not fn:
-                nested |= {id(x) for x in ast.walk(sub_)}
 
-        def role(c):
-            return "auto" if id(c) in nested else "manual"
+        def role(inst):
+            return "auto" if inst[3] else "manual"
 
-        for c, d in calls:
-            what = d.split(".")[-1] + ("[%s]" % role(c) if len(calls) > 1 else "")
-            first = c.args[0] if c.args else {k.arg: k.value for k in c.keywords}.get("endog")
+        dname = (repo.resolve_expr(mod, calls[0][0].func).dotted or "model").split(".")[-1]
+        for inst in calls:
+            c, pos, kws, _ = inst
+            what = dname + ("[%s]" % role(inst) if len(calls) > 1 else "")
+            first = pos[0] if pos else dict(kws).get("endog")
             if isinstance(first, ast.Name) and first.id == yparam:
                 good = True if not astq.assigned_in(fn, yparam) else None
             elif isinstance(first, ast.Subscript) and (dotted(first.value) or "").split(".")[0] == yparam:
@@ -1570,32 +1626,35 @@ def rule_forwarding(ctx, repo):
             ctx.check(good, "R6", "%s:%s:data" % (cname, what), "the model is built on the training series handed to _fit_forecaster",
                       "the wrapped model is built on %s, not on the whole `%s` argument" % (ast.unparse(first) if first is not None else "?", yparam),
                       ctx.loc(mod, c))
-            check_keywords(ctx, cname, mod, c, params, what, fn)
-        # .fit(...) of the model objects
-        fits = [n for n in ast.walk(fn) if isinstance(n, ast.Call) and isinstance(n.func, ast.Attribute) and n.func.attr == "fit"
-                and dotted(n.func.value) in ("self._forecaster", "_forecaster")]
-        for c in fits:
-            check_keywords(ctx, cname, mod, c, params, "fit" + ("[%s]" % role(c) if len(fits) > 1 else ""), fn)
+            check_keywords(ctx, cname, mod, c, params, what, None, kws)
+        fits = forwarding_instances(repo, cls, fn, is_fit)
+        for inst in fits:
+            check_keywords(ctx, cname, mod, inst[0], params, "fit" + ("[%s]" % role(inst) if len(fits) > 1 else ""), None, inst[2])
         if cname == "AutoETS":
-            if len(calls) != 2 or len(fits) != 2:
-                ctx.undecided("R6", "AutoETS:branches", "expected the model to be built and fitted once in the automatic and once in the manual branch", ctx.loc(mod, fn))
+            roles_m = sorted(role(i) for i in calls)
+            roles_f = sorted(role(i) for i in fits)
+            if roles_m != ["auto", "manual"] or roles_f != ["auto", "manual"]:
+                ctx.undecided("R6", "AutoETS:branches", "expected the model to be built and fitted once in the automatic and once in the manual branch "
+                              "(found model: %s, fit: %s)" % (roles_m, roles_f), ctx.loc(mod, fn))
             else:
                 searched = {"error", "trend", "damped_trend", "seasonal"}
 
-                def kwmap(c, skip):
-                    return {k.arg: astq.canon(k.value) for k in c.keywords if k.arg and k.arg not in skip}
+                def kwmap(inst, skip):
+                    return {k_: astq.canon(v_) for k_, v_ in inst[2] if k_ not in skip}
 
-                a, b = kwmap(calls[0][0], searched), kwmap(calls[1][0], searched)
+                ma = [i for i in calls if role(i) == "manual"][0]
+                au = [i for i in calls if role(i) == "auto"][0]
+                a, b = kwmap(ma, searched), kwmap(au, searched)
                 ctx.check(a == b, "R6", "AutoETS:branches:model-options", "automatic and manual branch pass the same non-searched model options",
                           "automatic and manual branch disagree on model options: %r" % (sorted(set(a.items()) ^ set(b.items())),), ctx.loc(mod, fn))
                 a, b = kwmap(fits[0], ()), kwmap(fits[1], ())
                 ctx.check(a == b, "R6", "AutoETS:branches:fit-options", "automatic and manual branch pass the same fit options",
                           "automatic and manual branch disagree on fit options: %r" % (sorted(set(a.items()) ^ set(b.items())),), ctx.loc(mod, fn))
-                # manual branch forwards the four searched options from self
-                manual = [c for c, _ in calls if all(self_attr_of(k.value) for k in c.keywords if k.arg in searched)]
-                ctx.check(len(manual) == 1 and {k.arg for k in manual[0].keywords} >= searched, "R6", "AutoETS:manual:searched-options",
+                # manual branch forwards the four searched options from self, each in its role
+                got = {k_: self_attr_of(v_) for k_, v_ in ma[2] if k_ in searched}
+                ctx.check(got == {k_: k_ for k_ in searched}, "R6", "AutoETS:manual:searched-options",
                           "the manual branch forwards error/trend/damped_trend/seasonal from the constructor",
-                          "the manual branch does not forward all of error/trend/damped_trend/seasonal from self", ctx.loc(mod, fn))
+                          "the manual branch forwards %r for error/trend/damped_trend/seasonal" % (got,), ctx.loc(mod, fn))
     # ThetaForecaster
     cls = repo.cls(THETA + ":ThetaForecaster")
     mod = cls.module
